@@ -125,6 +125,7 @@ def _build_array(rng, shape, src_dtype: str, pats: dict, pres: str):
     if pres == "big":
         v = v.astype(np.dtype(src_dtype).newbyteorder(">"))
     if pres == "readonly":
+        v = v.view()                     # a read-only view of a writeable buffer (e.g. a window into a capture the caller keeps filling)
         v.setflags(write=False)
     return v
 
@@ -297,6 +298,17 @@ def run_case(case):
             except Exception as e:  # noqa: BLE001
                 res["rejected"].append({"example": ex_i, "how": how, "exc": f"{type(e).__name__}: {str(e)[:160]}"})
                 continue
+            finally:
+                # the caller re-uses its buffers: whatever memory backed the values handed over is overwritten right after the
+                # call (for a read-only view: its writeable base) — what is read back must be the value at the time of the write
+                for v in vals.values():
+                    if isinstance(v, np.ndarray):
+                        r = v
+                        while isinstance(r.base, np.ndarray):
+                            r = r.base
+                        if r.flags.writeable:
+                            r.fill(0x25 if r.dtype.kind in "iub" else 1.5)
+                            res["scrambled"] = res.get("scrambled", 0) + 1
             for h in how.values():
                 res["presentations"][h.split(":")[0]] += 1
             expected.append((ex_i, exp, how))
@@ -674,5 +686,5 @@ def run(ctx):
         "samples": [{"case": r["case"], "written": r.get("written"), "mismatches": len(r["mismatches"])} for r in results[:3]],
         "input_distribution": {"datasets": len(results), "elements_compared": sum(r.get("elements", 0) for r in results), "presentations": dict(pres), "patterns": dict(pats),
                                "reader_runs": dict(rdr), "reader_errors": dict(rerrs), "rejected_writes_by_presentation": dict(rej), "mismatches": nmis,
-                               "fb_byte_vectors_checked": len(live), "max_secs_per_dataset": max([r.get("secs", 0) for r in results] or [0])},
+                               "fb_byte_vectors_checked": len(live), "caller_buffers_overwritten_after_write": sum(r.get("scrambled", 0) for r in results), "max_secs_per_dataset": max([r.get("secs", 0) for r in results] or [0])},
     })
